@@ -184,6 +184,20 @@ def execute(aiu, events, T, fails=(), dur=0.0, *, form='direct', settle=None, en
                     obs.submits.append({'t': world.now, 'kind': kind, 'values': xs, 'ok_prefix': pre,
                                         'immediate': all(d == 0 for _, d in items)})
                     buf.amap(agen())
+                elif kind == 'put_wait':       # submit and wait back-to-back inside one coroutine step
+                    x, cancel = op[1], op[2]
+                    rec = {'t': world.now, 'cancel': cancel, 'ret_t': None, 'delivered_at_ret': None,
+                           'submitted_before': submitted_so_far() | {x}}
+                    obs.waits.append(rec)
+
+                    async def put_wait(rec=rec, x=x, cancel=cancel):
+                        obs.submits.append({'t': world.now, 'kind': 'put', 'values': [x], 'ok_prefix': [x],
+                                            'immediate': True})
+                        buf(x)
+                        await buf.wait(cancel=cancel)
+                        rec['ret_t'] = world.now
+                        rec['delivered_at_ret'] = set(obs.delivered)
+                    wait_tasks.append(loop.create_task(put_wait()))
                 elif kind == 'wait':
                     rec = {'t': world.now, 'cancel': op[1], 'ret_t': None, 'delivered_at_ret': None,
                            'submitted_before': submitted_so_far()}
